@@ -1,6 +1,7 @@
 package main
 
 import (
+	"go/token"
 	"fmt"
 	"go/types"
 	"sort"
@@ -406,10 +407,104 @@ type globalWrite struct {
 	what string
 }
 
-func (a *Analysis) CheckC20(rep *Report, tier string) {
-	rep.Explanation = "V1: every package-level variable of the module is enumerated together with every instruction that writes it or memory reachable from it (stores, map updates, deletes through values derived from the variable), and the writing functions are classified. V2: no function reachable in the call graph (CHA in the quick tier, VTA in the thorough tier) from any Encode/Decode method, table lookup or codec primitive contains such a write, starts a goroutine, touches a channel or sync.Pool; package state may be read only if all its writers are start-up functions (package initialisers, init, registrars called only from init) or – for the checksum registry – under its read lock (C19). V3: every registered factory returns a fresh allocation (no shared body object). V4: no package-level variable holds a buffer or a message. With the library model's thread-safety entries, calls on disjoint objects then share no mutable memory: race-free and equal to the sequential results for every interleaving."
-	rep.Trusted = append(trustedBase(), "standard-library functions reachable from the codecs (encoding/binary, bytes, io, fmt, errors, hash/crc32, sync) are safe when called concurrently on disjoint arguments")
-	rep.Exhaustive = true
+// isTableShape: an array or slice of numbers (a lookup table), not a buffer, message or pool.
+func isTableShape(t types.Type) bool {
+	var el types.Type
+	switch u := t.Underlying().(type) {
+	case *types.Array:
+		el = u.Elem()
+	case *types.Slice:
+		el = u.Elem()
+	default:
+		return false
+	}
+	b, ok := el.Underlying().(*types.Basic)
+	return ok && b.Info()&types.IsNumeric != 0
+}
+
+// onlyIndexedForReading: outside start-up code every use of the package-level variable g is an element read
+// (g[i] as a value) or len(g).
+func (a *Analysis) onlyIndexedForReading(g *ssa.Global, startupOnly func(*ssa.Function) bool) bool {
+	readOnlyUse := func(v ssa.Value) bool {
+		// v is the loaded array/slice value, or the address of an element
+		refs := v.Referrers()
+		if refs == nil {
+			return false
+		}
+		for _, r := range *refs {
+			switch u := r.(type) {
+			case *ssa.DebugRef:
+			case *ssa.Index: // array value indexed: a copy of the element
+			case *ssa.IndexAddr:
+				for _, r2 := range *u.Referrers() {
+					switch l := r2.(type) {
+					case *ssa.DebugRef:
+					case *ssa.UnOp:
+						if l.Op != token.MUL {
+							return false
+						}
+					default:
+						return false
+					}
+				}
+			case *ssa.Call:
+				if b, ok := u.Call.Value.(*ssa.Builtin); !ok || (b.Name() != "len" && b.Name() != "cap") {
+					return false
+				}
+			default:
+				return false
+			}
+		}
+		return true
+	}
+	for fn := range a.P.AllFuncs {
+		if !a.P.InModule(fn) || fn.Blocks == nil || a.P.IsTestFile(fn.Pos()) || startupOnly(fn) {
+			continue
+		}
+		for _, b := range fn.Blocks {
+			for _, in := range b.Instrs {
+				for _, op := range in.Operands(nil) {
+					if op == nil || *op != ssa.Value(g) {
+						continue
+					}
+					switch u := in.(type) {
+					case *ssa.UnOp: // load of the array / slice header
+						if u.Op != token.MUL || !readOnlyUse(u) {
+							return false
+						}
+					case *ssa.IndexAddr: // &g[i] on an array variable
+						for _, r2 := range *u.Referrers() {
+							switch l := r2.(type) {
+							case *ssa.DebugRef:
+							case *ssa.UnOp:
+								if l.Op != token.MUL {
+									return false
+								}
+							default:
+								return false
+							}
+						}
+					default:
+						return false
+					}
+				}
+			}
+		}
+	}
+	return true
+}
+
+// globalFacts: the package-level variables of the module, every instruction that writes them (or memory reachable from
+// them), their readers, and which functions are start-up code.
+type globalFactsT struct {
+	globals     []*ssa.Global
+	writes      []globalWrite
+	readers     map[*ssa.Global]map[*ssa.Function]bool
+	startupOnly func(fn *ssa.Function) bool
+	writersOf   map[*ssa.Global][]globalWrite
+}
+
+func (a *Analysis) globalFacts() *globalFactsT {
 	inModule := func(g *ssa.Global) bool { return g.Pkg != nil && strings.HasPrefix(g.Pkg.Pkg.Path(), modulePath) }
 	// V1
 	var globals []*ssa.Global
@@ -495,6 +590,33 @@ func (a *Analysis) CheckC20(rep *Report, tier string) {
 	for _, w := range writes {
 		writersOf[w.g] = append(writersOf[w.g], w)
 	}
+	return &globalFactsT{globals: globals, writes: writes, readers: readers, startupOnly: startupOnly, writersOf: writersOf}
+}
+
+// immutableTable: g is a package-level table of numbers written by start-up code only and otherwise only indexed for
+// reading – a constant of the program for every codec call.
+func (a *Analysis) immutableTable(g *ssa.Global) bool {
+	et := g.Type().(*types.Pointer).Elem()
+	if !isTableShape(et) {
+		return false
+	}
+	gf := a.globalFacts()
+	for _, w := range gf.writersOf[g] {
+		if !gf.startupOnly(w.fn) {
+			return false
+		}
+	}
+	return a.onlyIndexedForReading(g, gf.startupOnly)
+}
+
+func (a *Analysis) CheckC20(rep *Report, tier string) {
+	rep.Explanation = "V1: every package-level variable of the module is enumerated together with every instruction that writes it or memory reachable from it (stores, map updates, deletes through values derived from the variable), and the writing functions are classified. V2: no function reachable in the call graph (CHA in the quick tier, VTA in the thorough tier) from any Encode/Decode method, table lookup or codec primitive contains such a write, starts a goroutine, touches a channel or sync.Pool; package state may be read only if all its writers are start-up functions (package initialisers, init, registrars called only from init) or – for the checksum registry – under its read lock (C19). V3: every registered factory returns a fresh allocation (no shared body object). V4: no package-level variable holds a buffer or a message. With the library model's thread-safety entries, calls on disjoint objects then share no mutable memory: race-free and equal to the sequential results for every interleaving."
+	rep.Trusted = append(trustedBase(), "standard-library functions reachable from the codecs (encoding/binary, bytes, io, fmt, errors, hash/crc32, sync) are safe when called concurrently on disjoint arguments")
+	rep.Exhaustive = true
+	gf := a.globalFacts()
+	globals, readers, startupOnly, writersOf, writes := gf.globals, gf.readers, gf.startupOnly, gf.writersOf, gf.writes
+	inModule := func(g *ssa.Global) bool { return g.Pkg != nil && strings.HasPrefix(g.Pkg.Pkg.Path(), modulePath) }
+	_, _ = readers, writes
 	guarded := a.findGuarded()
 	isRegistry := func(g *ssa.Global) bool {
 		if pt, ok := g.Type().(*types.Pointer).Elem().Underlying().(*types.Pointer); ok {
@@ -528,6 +650,19 @@ func (a *Analysis) CheckC20(rep *Report, tier string) {
 		if sl, isSl := et.Underlying().(*types.Slice); isSl {
 			if b, ok := sl.Elem().Underlying().(*types.Basic); ok && b.Kind() == types.Uint8 {
 				bad = true // a package-level scratch byte slice
+			}
+		}
+		if bad && isTableShape(et) {
+			// a lookup table: written by start-up code only and, everywhere else, only indexed for reading (never
+			// sliced, appended to, passed on or stored through – nothing that could hand out or modify its storage)
+			startupWriters := true
+			for _, w := range writersOf[g] {
+				if !startupOnly(w.fn) {
+					startupWriters = false
+				}
+			}
+			if startupWriters && a.onlyIndexedForReading(g, startupOnly) {
+				bad = false
 			}
 		}
 		rep.Ob("V4-no-shared-buffer-or-message", name, !bad, a.P.Pos(g.Pos()), "package-level variable of type "+typeStr(et)+" can be shared between concurrent calls")
